@@ -346,7 +346,7 @@ theorem def_type_index_witness :
     defTypeIndexY E true 2 0 1 = (1, false) ∧ typeIndexSpec true 2 0 1 = (1, true) := by decide
 
 /-- **The type a constant argument is converted to, with `...`** (`hp.F(6, nil...)`: the argument followed by an ellipsis is the
-    variadic parameter itself; repair 0b75d2f of F07-16): for every arity, receiver offset and position Go's typing allows
+    variadic parameter itself; repair 57dd9e4 of F07-16): for every arity, receiver offset and position Go's typing allows
     (with `...` the call has exactly one argument per parameter), the type callBin picks is Go's — the parameter's own type,
     the slice type for the last one; without `...` the statement is `arg_type_index_correct`. -/
 theorem arg_type_index_correct_ellipsis (isVariadic ellipsis : Bool) (numIn off i : Nat) (hv : isVariadic = true → numIn ≥ 1)
@@ -557,7 +557,7 @@ theorem variadic_pack_same_type_witness (xs : RepL) :
 
 /-! ### `call` with a host function as function value: the arguments -/
 
-/-- **A call with `...` prepares its other arguments** (`callArgArms`, regenerated; repair 449969c of F07-17): for every
+/-- **A call with `...` prepares its other arguments** (`callArgArms`, regenerated; repair 5b28270 of F07-17): for every
     parameter class and every frame value, an argument that is not the spread slice is prepared exactly as in a call without
     ellipsis, and the slice followed by `...` is passed as it is. -/
 theorem call_fixed_args_ignore_ellipsis (ellipsis : Bool) (p : CallParam) (r : Rep) :
@@ -587,7 +587,7 @@ theorem call_argprep_generated (ellipsis : Bool) (p : CallParam) (r : Rep) :
     callPrepareY Generated.C07.facts.callArgArms ellipsis false p r = callPrepareY Generated.C07.facts.callArgArms false false p r := by
   rw [facts_tie]; exact (call_fixed_args_ignore_ellipsis ellipsis p r).1
 
-/-- the arms before 449969c: `case hasVariadicArgs: genValue(c)` for every argument -/
+/-- the arms before 5b28270: `case hasVariadicArgs: genValue(c)` for every argument -/
 def preSpreadArms : List CallArgArm :=
   [⟨.ellipsisCall, .raw⟩, ⟨.ifaceSrc, .boxIface⟩, ⟨.ifaceBin, .ifaceWrap⟩, ⟨.funcSrc, .funcValue⟩, ⟨.default, .raw⟩]
 
@@ -810,7 +810,7 @@ example : methodWrapperCall E getRecv (fun _ _ => []) false (heapWith 1) (heapWi
 /-! ### method values of host values -/
 
 /-- **A method value of a HOST value binds its receiver when it is evaluated** (`hostMethodBindsRecv`, `bindRecvCopies`,
-    regenerated; repair 5c3ec57 of F07-15) — `mv := c.M`, `defer c.M(…)`, `go c.M(…)` on a value of a host type: for a value or
+    regenerated; repair ab0ab0c of F07-15) — `mv := c.M`, `defer c.M(…)`, `go c.M(…)` on a value of a host type: for a value or
     pointer receiver, every state of the heap and of the variable at the two moments, the call runs with the receiver Go
     prescribes for a method value, the one reached when it was EVALUATED — the same statement as for the methods of script
     types (`method_wrapper_binds_receiver`). -/
